@@ -68,6 +68,12 @@ static std::vector<long long> gen_offsets(const std::string &kind, size_t n, siz
             for (size_t i = 0; i < r && v.size() < n; ++i) v.push_back(cur);
             cur += rng.chance(1, 3) ? 1 : rng.chance(1, 2) ? 2 : 2 + (long long) rng.below(9);
         }
+    } else if (kind == "runs_uniform") {  // runs of 1..8 duplicates, gaps of 1..9
+        while (v.size() < n) {
+            size_t r = 1 + rng.below(8);
+            for (size_t i = 0; i < r && v.size() < n; ++i) v.push_back(cur);
+            cur += 1 + (long long) rng.below(9);
+        }
     } else if (kind == "sawtooth") {      // points alternately eps above / below a line: tight on the band
         long long stepx = 1 + (long long) rng.below(4);
         for (size_t i = 0; i < n; ++i) {
